@@ -7,6 +7,7 @@ import (
 	"pgregory.net/rapid"
 
 	ms "verif/internal/model/script"
+	"verif/internal/model/secp"
 )
 
 // ---------------------------------------------------------------------------
@@ -37,6 +38,7 @@ const (
 	pkCompressed = iota
 	pkUncompressed
 	pkHybrid
+	pkOffCurve // 33 bytes, 02 prefix, x not on the curve
 )
 
 func encodePub(k *ms.Key, format int) []byte {
@@ -45,12 +47,22 @@ func encodePub(k *ms.Key, format int) []byte {
 		return k.Uncompressed()
 	case pkHybrid:
 		return k.Hybrid()
+	case pkOffCurve:
+		b := k.Compressed()
+		b[0] = 2
+		for i := 0; i < 64; i++ {
+			b[32] = byte(i)
+			if _, _, ok := secp.ParsePubKey(b); !ok {
+				return b
+			}
+		}
+		return b
 	}
 	return k.Compressed()
 }
 
 func genPubFormat() *rapid.Generator[int] {
-	return rapid.SampledFrom([]int{pkCompressed, pkCompressed, pkCompressed, pkCompressed, pkUncompressed, pkHybrid})
+	return rapid.SampledFrom([]int{pkCompressed, pkCompressed, pkCompressed, pkCompressed, pkUncompressed, pkHybrid, pkOffCurve, pkCompressed})
 }
 
 // ---------------------------------------------------------------------------
